@@ -120,7 +120,7 @@ func gobEncodeItem(it Item) ([]byte, error) {
 			return err
 		})
 	}
-	if IsObject(it) {
+	if IsObject(it) && !IsNil(it) {
 		switch it.GetType() {
 		case IRIType:
 			var bytes []byte
